@@ -20,6 +20,6 @@ for id in "$@"; do
   fi
   out=$("$S/target/release/$bin" --tier "$tier" 2>/dev/null); rc=$?
   echo "== $id tier=$tier exit=$rc"
-  echo "$out" | grep -E "^VIOLATION|^  signature:|^PASS|^FAIL|MACHINERY" | head -12
+  echo "$out" | grep -E "^VIOLATION|^  signature:|^PASS|^FAIL|MACHINERY" | head -40
 done
 echo "(scratch in $S; remove with rm -rf $S when done)"
